@@ -307,4 +307,39 @@ theorem tuneGa_valid (laws : ProbLaws P) (L : Nat) (hL : L ≠ 0) (term0 : Nat) 
 
 end
 
+/-! ### the parameters this model covers, by their names in environment.h
+
+Compared (Props.lean, `tune_tables_cover_source`) with the lists tools/translate_tune.py extracts
+from the clang AST of the current sources, so that a parameter added to `is_valid` or to one of
+the `tune_parameters` but not to this model is noticed. -/
+
+/-- tested by `if (force_defined) {…}` : `Defined` (13 tunable) + `Untuned` (3) -/
+def modelForced : List String :=
+  ["alps.age_gap", "alps.p_same_layer", "brood_recombination", "elitism", "generations", "individuals",
+   "layers", "mate_zone", "max_stuck_time", "mep.code_length", "mep.patch_length", "min_individuals",
+   "p_cross", "p_mutation", "team.individuals", "tournament_size"]
+
+/-- read by the range / cross-field checks: `Single`, `Cross` … -/
+def modelChecked : List String :=
+  ["alps.p_same_layer", "dss", "individuals", "mate_zone", "mep.code_length", "mep.patch_length",
+   "min_individuals", "p_cross", "p_mutation", "tournament_size", "validation_percentage"]
+
+/-- … and the six path checks this model leaves out (the tie keeps them at their defaults) -/
+def notModelledChecked : List String :=
+  ["stat.dir", "stat.dynamic_file", "stat.layers_file", "stat.population_file", "stat.summary_file",
+   "stat.test_file"]
+
+/-- assigned by `search::tune_parameters` (= the fields `tuneBase` rewrites) -/
+def modelTunedBase : List String :=
+  ["brood_recombination", "elitism", "generations", "individuals", "layers", "mate_zone",
+   "max_stuck_time", "mep.code_length", "mep.patch_length", "min_individuals", "p_cross", "p_mutation",
+   "tournament_size"]
+
+/-- assigned by `src_search::tune_parameters` beyond the base call (`dss` and
+    `validation_percentage` sit behind the always-false `typeid` tests) -/
+def modelTunedSrc : List String := ["dss", "individuals", "layers", "validation_percentage"]
+
+/-- assigned by `basic_ga_search::tune_parameters` beyond the base call -/
+def modelTunedGa : List String := ["min_individuals"]
+
 end Vita.C06
